@@ -28,6 +28,13 @@ type File struct {
 	Size  int      `json:"size"`
 	To    []string `json:"to"`              // new paths that get this content (empty: removed)
 	Edits []Edit   `json:"edits,omitempty"` // applied to the copy at To[0]
+	// Kind (identical/renames families only): "" unique high-entropy stream; "zero", "const" (0x20), "mixed"
+	// (zero and 0x20 blocks alternating): blocks whose rolling hash is 0, like the entry that signs an empty file
+	Kind string `json:"kind,omitempty"`
+	// Twin: the old build also holds Path+".twin" - the same content with three bytes of block TwinBlock changed
+	// by +1,-2,+1 (same rolling hash, different strong hash) - and the new build keeps it next to To[0]
+	Twin      bool `json:"twin,omitempty"`
+	TwinBlock int  `json:"twin_block,omitempty"`
 }
 
 type Spec struct {
@@ -42,6 +49,26 @@ type Spec struct {
 func oldContent(i int, f File) h.Content {
 	if f.Size == 0 {
 		return h.Content{}
+	}
+	switch f.Kind {
+	case "zero":
+		return h.Content{{Src: 0, Len: f.Size}}
+	case "const":
+		return h.Content{{Src: -1 - 0x20, Len: f.Size}}
+	case "mixed":
+		var c h.Content
+		for off, k := 0, 0; off < f.Size; off, k = off+h.BS, k+1 {
+			n := h.BS
+			if off+n > f.Size {
+				n = f.Size - off
+			}
+			src := 0
+			if k%2 == 1 {
+				src = -1 - 0x20
+			}
+			c = append(c, h.Piece{Src: src, Len: n})
+		}
+		return c
 	}
 	return h.Content{{Src: 10 + i, Off: 0, Len: f.Size}}
 }
@@ -89,8 +116,27 @@ func check(s Spec) h.Result {
 	if s.SigFile {
 		cl = append(cl, "old-signature:read-back-from-a-signature-stream")
 	}
+	type twin struct {
+		oldPath, newPath string
+		off              int
+	}
+	var twins []twin
 	for i, f := range s.Files {
 		old = append(old, h.Entry{Path: f.Path, Kind: h.KFile, C: oldContent(i, f)})
+		if f.Twin && f.Size > 0 && s.Family != "edits" {
+			tw := twin{oldPath: f.Path + ".twin", off: (f.TwinBlock % ((f.Size + h.BS - 1) / h.BS)) * h.BS}
+			old = append(old, h.Entry{Path: tw.oldPath, Kind: h.KFile, C: oldContent(i, f)})
+			if len(f.To) > 0 && nw.Get(f.To[0]+".twin") == nil {
+				tw.newPath = f.To[0] + ".twin"
+				nw = append(nw, h.Entry{Path: tw.newPath, Kind: h.KFile, C: oldContent(i, f)})
+				exp[tw.newPath] = expect{equal: true, size: f.Size}
+			}
+			twins = append(twins, tw)
+			cl = append(cl, "old:two-files-differing-in-a-block-with-the-same-weak-hash")
+		}
+		if f.Kind != "" && f.Size >= h.BS {
+			cl = append(cl, "content:blocks-with-weak-hash-0")
+		}
 		for j, to := range f.To {
 			if nw.Get(to) != nil {
 				continue
@@ -120,6 +166,12 @@ func check(s Spec) h.Result {
 	}
 	if err := nw.Write(nd); err != nil {
 		return h.Result{Skip: "cannot write new tree"}
+	}
+	for _, tw := range twins {
+		h.ApplyDmg(od, h.Dmg{Path: tw.oldPath, Op: "collide", Off: tw.off})
+		if tw.newPath != "" {
+			h.ApplyDmg(nd, h.Dmg{Path: tw.newPath, Op: "collide", Off: tw.off})
+		}
 	}
 	var dopts *h.DiffOpts
 	if s.SigFile {
@@ -322,6 +374,23 @@ var prop = h.Prop[Spec]{
 			}
 		}
 		s.SigFile = rapid.IntRange(0, 3).Draw(t, "old-signature-from-stream") == 0
+		if s.Family != "edits" {
+			// rolling-hash collisions inside the block library: constant blocks (and an empty file), twins
+			for i := range s.Files {
+				f := &s.Files[i]
+				switch rapid.IntRange(0, 9).Draw(t, "content-kind") {
+				case 0:
+					f.Kind = "zero"
+				case 1:
+					f.Kind = "const"
+				case 2:
+					f.Kind = "mixed"
+				case 3, 4:
+					f.Twin = true
+					f.TwinBlock = rapid.IntRange(0, 80).Draw(t, "twin-block")
+				}
+			}
+		}
 		return s
 	},
 	Check: check,
